@@ -76,6 +76,18 @@ func c06(c *q.Ctx) {
 	}
 	c.Floor("K1", "bcs/ledger/xledger", "functions issuing Batch.Write", n, 5)
 
+	// nothing is staged after the commit point of a block-level operation (it would never reach the disk)
+	for fn, args := range map[string]map[string]int{
+		st + "(*State).procUndoBlkForWalk": {"State.undoTxInternal": 2, "State.undoPayFee": 2, "Meta.UpdateNextIrreversibleBlockHeightForPrune": 4, "State.updateLatestBlockid": 2},
+		st + "(*State).procTodoBlkForWalk": {"State.doTxInternal": 2, "State.payFee": 2, "Meta.UpdateNextIrreversibleBlockHeight": 4, "State.updateLatestBlockid": 2},
+		st + "(*State).PlayAndRepost":      {"State.processUnconfirmTxs": 2, "State.doTxInternal": 2, "State.payFee": 2, "Meta.UpdateNextIrreversibleBlockHeight": 4, "State.updateLatestBlockid": 2},
+		st + "(*State).PlayForMiner":       {"State.doTxInternal": 2, "State.payFee": 2, "Meta.UpdateNextIrreversibleBlockHeight": 4, "State.updateLatestBlockid": 2},
+	} {
+		if f := c.Fn(fn); f != nil {
+			bv := c.SameValueArgs(f, args, "one batch per block, shared by every step and by the pointer update", "a block is applied or undone atomically")
+			c.NoUseAfter(f, bv, "State.updateLatestBlockid", "updateLatestBlockid writes the batch: a step staged afterwards is lost at the next restart while memory says otherwise")
+		}
+	}
 	// RollBackUnconfirmedTx: one batch for all undos; in-memory pool only after the write
 	rb := c.Fn(st + "(*State).RollBackUnconfirmedTx")
 	if rb != nil {
@@ -115,7 +127,9 @@ func c06(c *q.Ctx) {
 	lu := c.Fn("bcs/ledger/xledger/tx::(*Tx).LoadUnconfirmedTxFromDisk")
 	if lu != nil {
 		c.ArgIs(lu, "NewIteratorWithPrefix", 0, "\"N\"", 1, "the pool is rebuilt from the persisted unconfirmed table")
-		c.Effect(lu, q.Eff{Spec: "Map.Store", Arg: 0, Glob: "*", Why: "every persisted pool record is loaded", Rule: "K2"})
+		it := "i:Database.NewIteratorWithPrefix(p0.ldb,\"N\")"
+		c.Effect(lu, q.Eff{Spec: "Map.Store", Arg: 0, Glob: "i:Iterator.Key(" + it + ")[1:]", Req: []q.Cond{{Canon: "i:Iterator.Next(" + it + ")", Sense: true}, {Canon: "(nil == proto.Unmarshal(i:Iterator.Value(" + it + "),local<Transaction>))", Sense: true}}, Exact: true, Why: "every persisted pool record is loaded, under its id, with no filter: a record that is skipped leaves effects in the state that no rollback knows about", Rule: "K2"})
+		c.ArgIs(lu, "Map.Store", 2, "local<Transaction>", 1, "what is stored is the decoded record")
 	}
 	tipNeq := q.Cond{Canon: "bytes.Equal(*TipBlockid,*latestBlockid)", Sense: false}
 	for _, fn := range []string{miner + "(*Miner).mining", miner + "(*Miner).trySyncBlock"} {
